@@ -43,9 +43,9 @@ lines += ["", "`vp check` request 1 (fresh copy, setup + every quick check once,
           "MANIFEST.json lists a `thorough_cmd` only for these; for the other checks the thorough configuration exists (`./vcheck <ID> --tier thorough`) but was only slice-tested and is not registered.", "",
           "Session of 2026-09-22 22:35 (30 minutes): thorough tiers of C58, C64 and C56 were started together (VERIF_SEED=1). C58 ran to the end "
           "(384 sessions, 6 095 deliveries, 90 distinct non-trivial outcomes, 0 violations, 449 s) and is now registered with a `thorough_cmd`. "
-          "C64 (256 of 1 280 sessions after 6 min) and C56 (about 7 of 75 cases per shard after 7 min, with 48 harness processes on 16 cores) "
-          "were stopped by the operator for lack of time - neither had produced a violation record; they stay registered with the quick tier only. "
-          "Measured cost for planning a later run: C64-thorough about 25-30 min, C56-thorough about 40-60 min on 16 otherwise idle cores.", ""]
+          "C64 was stopped at 256 of 1 280 sessions when run beside the other two, then re-run alone to the end (1 280 sessions, 664 distinct non-trivial outcomes, 0 violations, 373 s) and is registered as well. C56 (about 7 of 75 cases per shard after 7 min, with 48 harness processes on 16 cores) "
+          "was stopped by the operator for lack of time - it had produced no violation record; it stays registered with the quick tier only. "
+          "Measured cost for planning a later run: C56-thorough about 40-60 min on 16 otherwise idle cores.", ""]
 lines += ["### 10.8 Independently seeded changes (kept under `/verif/seeded/<id>/`: patch.diff, demo.diff, meta.json)",
           "Produced by fresh sub-agents that were given only the property text and a scratch git worktree (nothing from /verif). Each change compiles, keeps every existing `test_bitcoin` suite green, "
           "and comes with a demonstration test that passes without and fails with the change; all of that was re-confirmed by the coordinator (`lib/seedeval.sh confirm`). "
